@@ -44,7 +44,9 @@ Print Assumptions C15_formats_agree.
 
 (* Command line over --config over the file value, field by field: the --config value replaces the
    file value among the keyword arguments of the settings object and leaves the others alone; a
-   command line value replaces the field; an absent --config / command line changes nothing. *)
+   command line value replaces the field; an absent --config / command line changes nothing.
+   (This is the step convert_types_from_commandarguments; the one field derived afterwards,
+   exclude_dir, is characterised by C15_exclude_dir_derived below.) *)
 Theorem C15_precedence : forall st file k t v v' c,
   field_ty k = Some t -> convert_setting t k v = Ok v' -> aget k st <> None ->
   aget k (kw_update file [(k, c)]) = Some c
@@ -55,6 +57,26 @@ Theorem C15_precedence : forall st file k t v v' c,
   /\ apply_cli st [] = Ok st.
 Proof. exact precedence. Qed.
 Print Assumptions C15_precedence.
+
+(* One option is derived after the command line has been applied (parse_arguments, right after
+   normalise_paths): exclude_dir is the winning value -- from the file, --config or the command
+   line -- followed by the effective output_dir unless that is already in the list; no other field
+   changes.  (relative = (project_url == "") is the other derived field; it is computed when the
+   settings object is built and cannot be given.) *)
+Theorem C15_exclude_dir_derived : forall st l,
+  sget (s "exclude_dir") st = PList l ->
+  exists st', exclude_output st = Ok st' /\
+              sget (s "exclude_dir") st' = PList (with_output (sget (s "output_dir") st) l) /\
+              forall k, k <> s "exclude_dir" -> sget k st' = sget k st.
+Proof. exact exclude_output_spec. Qed.
+Print Assumptions C15_exclude_dir_derived.
+
+(* Whatever the format and the command line: a run whose settings are accepted excludes its
+   effective output directory from the source search. *)
+Theorem C15_output_dir_excluded : forall i st w, effective i = Ok (st, w) ->
+  exists l, sget (s "exclude_dir") st = PList l /\ existsb (py_eq (sget (s "output_dir") st)) l = true.
+Proof. exact output_dir_excluded. Qed.
+Print Assumptions C15_output_dir_excluded.
 
 (* File value over default, for every option of the schema. *)
 Theorem C15_file_over_default : forall k x,
